@@ -143,7 +143,10 @@ def run(P, R, tier):
     R.assume('S3: HilbertRtree rows and queries are (lb_0..lb_{n-1}, ub_0..ub_{n-1}); queries have lb <= ub')
     R.assume('S4: IEEE comparisons with NaN are false (numba nopython)')
     from rules import common as _common
-    _common.no_fastmath(P, R, 'C03.f', ['spatialpandas.spatialindex'])
+    _common.no_fastmath(P, R, 'C03.h', ['spatialpandas.spatialindex'])
+    # GeometryArray.sindex (an observation point of this property): built on every row's bounds, in array order, never copied to derived arrays
+    from rules import C04 as _C04
+    _C04.sindex_writers(P, R, rule='C03.i')
     NR = P.cls(f'{MOD}._NumbaRtree')
     HR = P.cls(f'{MOD}.HilbertRtree')
     meth = {k: v[1] for k, v in NR.members.items() if v[0] == 'func'}
